@@ -585,11 +585,15 @@ class Mitochondria:
 
         # Boolean operations (and, or)
         elif isinstance(node, ast.BoolOp):
-            values = [self._compute_node(v) for v in node.values]
-            bool_func = self.SAFE_BOOL_OPS.get(type(node.op))
-            if bool_func is None:
+            if type(node.op) not in self.SAFE_BOOL_OPS:
                 raise ValueError(f"Unsupported boolean op: {type(node.op).__name__}")
-            return bool_func(values)
+            # Python semantics: operands left to right, stop at the deciding one, return that operand
+            is_or = isinstance(node.op, ast.Or)
+            for operand in node.values[:-1]:
+                value = self._compute_node(operand)
+                if bool(value) == is_or:
+                    return value
+            return self._compute_node(node.values[-1])
 
         # If expressions (ternary)
         elif isinstance(node, ast.IfExp):
